@@ -21,6 +21,7 @@ Spec protocol (a state is the action history that reaches it, live objects are r
 """
 from __future__ import annotations
 
+from vmc import explore
 from vmc import par
 from vmc.tally import HarnessError, Tally, digest
 
@@ -62,6 +63,50 @@ def _worker(chunk):
     while frontier and len(frontier[0][0]) < stop:
         frontier = _expand_level(spec, frontier, depth, t, seen)
     return t, frontier, seen - seen0
+
+
+_DFS = None
+
+
+def _dfs_worker(chunk):
+    make_exec, bound = _DFS
+    t = Tally()
+    for key, prefix, used in chunk:
+        explore._dev_rec(make_exec(key), prefix, used, bound(key) if callable(bound) else bound, t)
+    return t
+
+
+def dfs_dev_many(keys, make_exec, bound, tally: Tally, log=None, nchunks=None, selftest=2):
+    """deviation-bounded DFS (explore._dev_rec) for many exec objects with ONE process pool:
+    the parent runs every default execution, then deals (exec key, first deviation) subtrees to the workers.
+    `make_exec(key)` builds the exec object (spec protocol of explore.dfs_dev); `bound` is an int or a function key -> int."""
+    global _DFS
+    tasks = []
+    for n, key in enumerate(keys):
+        ex = make_exec(key)
+        b = bound(key) if callable(bound) else bound
+        c1, w1, k1 = ex.run((), tally)
+        if n < selftest:
+            c2, w2, k2 = make_exec(key).run((), Tally())
+            if (list(c1), list(w1)) != (list(c2), list(w2)):
+                raise HarnessError("default execution of %r is not deterministic" % (key,))
+        tally.executions += 1
+        tally.max_depth = max(tally.max_depth, len(c1))
+        for i in range(len(c1)):
+            c = k1[i] if k1 else 1
+            if c > b:
+                continue
+            for alt in range(1, w1[i]):
+                tasks.append((key, tuple(c1[:i]) + (alt,), c))
+    tally.transitions += len(tasks)
+    if log:
+        log("dfs_dev_many: %d default executions, %d first-level deviations" % (len(keys), len(tasks)))
+    _DFS = (make_exec, bound)
+    try:
+        par.pmap_tally(_dfs_worker, tasks, tally, nchunks=nchunks or par.NPROC * 8)
+    finally:
+        _DFS = None
+    return tally
 
 
 def bfs_once(spec, depth, tally: Tally, log=None, split=120, stages=2, nchunks=None):
